@@ -269,6 +269,8 @@ def run(repo, chk):
         nm, cp = kwarg(c, "name"), kwarg(c, "capture")
         chk.ob("R13.2", f"selector._resolve:constraint-on-{field}:named-by-signature", nm is not None and cp is not None and _through(nm) == want_ == _through(cp), rs.where,
                "the receiver element is named and captured under the signature's parameter name (the receiver is reported in the event)")
+    from .shared import variant_selection_obligations
+    variant_selection_obligations(repo, chk, "R13.4")      # the receiver element of `a.meth > v` (its value is a's own matcher) keeps its own count: the receiver parameter stays instrumented while that probe is active
     from .shared import routing_obligations
     routing_obligations(repo, chk, "R13.4", "record")      # every element that matches a binding has logged it before any focus element triggers: the receiver matcher (registered last) is in the table when the check runs
     from .shared import call_aggregates
